@@ -8,6 +8,7 @@ EXPLANATION = ("R-ORDER write-before-publish in the producers (slot written befo
                "an observation that it is published) and `None`/empty only behind `pop_index >= push_index`, delayed free of consumed "
                "blocks, Drop drains, R-MO Release/Acquire floors on the publishing atomics, R-WHO single-consumer confinement of "
                "every may_queue::mpsc/spsc queue field used by may")
+EXPLANATION_2 = ("block-boundary discipline (the committing side moves its block pointer iff the committed index is block-aligned) for mpsc pop/fast_bulk_pop/bulk_pop and spsc push/pop/bulk_pop; mpsc packed tail word (pack(block,id+1) inside a block, lock bit exactly at the last slot, lock released on every path, plain store only under the lock, next-next block installed before unlock); fast_bulk_pop commits iff it took values, bulk_pop drops the fast batch only when empty; spsc block recycling only behind the consumer's head")
 NOT_DECIDED = ("linearizability and FIFO order of histories; index arithmetic across block boundaries and wrap-around; ABA on recycled "
                "blocks (inner_cache); the cross-thread unsync_load in spsc::alloc_node")
 CONFIGS_QUICK = ["default"]
